@@ -15,9 +15,10 @@ type ge5 struct{ V int32 }
 type ge6 struct{ V int32 }
 type ge7 struct{ V int32 }
 type ge8 struct{ V int32 }
+type ge9 struct{ V int32 }
 
-// graphEdgeCheck exercises the archetype graph at the moments its node list is re-allocated (128, 256 nodes), which
-// ordinary histories pass at an arbitrary point of an arbitrary operation: a world over 8 or 9 component types is
+// graphEdgeCheck exercises the archetype graph at the moments its node list is re-allocated (128, 256, 512 nodes), which
+// ordinary histories pass at an arbitrary point of an arbitrary operation: a world over 8 to 10 component types is
 // driven with multi-component NewEntity / Add / Remove / Exchange calls through the ID-based API while a model keeps the exact
 // set of graph nodes (every component set a walk has stepped on), of cached edges and of component sets that have an
 // archetype. Whenever the node count stands at a capacity, the next call is chosen, if there is one, such that its
@@ -34,9 +35,9 @@ func graphEdgeCheck(seed uint64) {
 	w := ecs.NewWorld(8)
 	all := []ecs.ID{
 		ecs.ComponentID[ge0](w), ecs.ComponentID[ge1](w), ecs.ComponentID[ge2](w), ecs.ComponentID[ge3](w), ecs.ComponentID[ge4](w),
-		ecs.ComponentID[ge5](w), ecs.ComponentID[ge6](w), ecs.ComponentID[ge7](w), ecs.ComponentID[ge8](w),
+		ecs.ComponentID[ge5](w), ecs.ComponentID[ge6](w), ecs.ComponentID[ge7](w), ecs.ComponentID[ge8](w), ecs.ComponentID[ge9](w),
 	}
-	nc := 8 + next(2)
+	nc := 8 + next(3)
 	u := w.Unsafe()
 	type edge struct {
 		m uint16
@@ -198,12 +199,16 @@ func graphEdgeCheck(seed uint64) {
 		}
 		return false
 	}
-	caps := map[int]bool{128: true, 256: true}
+	caps := map[int]bool{128: true, 256: true, 512: true}
+	maxNodes, maxSteps := 300, 900
+	if nc == 10 {
+		maxNodes, maxSteps = 540, 2600
+	}
 	hits := 0
 	for i := 0; i < 6; i++ {
 		create(pick(0, 3+next(3), false))
 	}
-	for step := 0; step < 900 && len(nodes) < 300 && len(nodes) < 1<<uint(nc)-8; step++ {
+	for step := 0; step < maxSteps && len(nodes) < maxNodes && len(nodes) < 1<<uint(nc)-8; step++ {
 		n := len(nodes)
 		if caps[n] {
 			delete(caps, n)
